@@ -57,9 +57,11 @@ def load_one(lit: LineIterator) -> dict:
     # The next two lines are general comments
     next(lit)
     next(lit)
-    words = next(lit).split()
-    natom = int(words[0])
-    nbond = int(words[1])
+    line = next(lit)
+    words = line.split()
+    # The counts line has fixed-width fields (aaabbb...), which touch for 100 atoms or bonds and more.
+    natom = int(line[0:3])
+    nbond = int(line[3:6])
     if words[-1].upper() != "V2000":
         raise LoadError("Only V2000 SDF files are supported.", lit)
     atcoords = np.empty((natom, 3), float)
@@ -72,7 +74,9 @@ def load_one(lit: LineIterator) -> dict:
         atnums[iatom] = sym2num.get(words[3].title())
     bonds = np.empty((nbond, 3), int)
     for ibond in range(nbond):
-        words = next(lit).split()
+        line = next(lit)
+        # Bond lines have fixed-width fields: 111222ttt...
+        words = [line[0:3], line[3:6], line[6:9]]
         bonds[ibond, 0] = int(words[0]) - 1
         bonds[ibond, 1] = int(words[1]) - 1
         # Bond types 1 to 8 (inclusive) are defined in the SDF format.
